@@ -1533,6 +1533,9 @@ class VacancyMediated(object):
 
         # 4c. origin state corrections for solute: (corrections for vacancy appear below)
         # these corrections are due to the null space for the vacancy without solute
+        # (they are only used by the large omega2 algorithm; the standard algorithm treats the null space
+        # exactly, below, and needs the uncorrected values)
+        biasSvec_nocorr, D0ss_nocorr, D0sv_nocorr = biasSvec.copy(), D0ss.copy(), D0sv.copy()
         if len(self.OSindices) > 0:
             # need to multiply by sqrt(probV) first
             OSprobV = self.OSfolddown*probVsqrt  # proper null space projection
@@ -1632,8 +1635,47 @@ class VacancyMediated(object):
         L1sv = np.dot(outer_etaSvec, biasVvec) / self.N
         L1vv = np.dot(outer_etaVvec, biasVvec) / self.N
 
+        if len(self.OSindices) > 0 and not use_large_om2:
+            # Origin states (sites with a vector basis), standard algorithm. Without the solute the vacancy has one
+            # null mode per solute site (sqrt of the reference probability over that sector), so the bare GF is only
+            # defined up to those modes, and the solution of the Dyson equation is
+            #   eta = g0 (b - domega eta) + V mu,   with the constants mu fixed by   V^T (b - domega eta) = 0
+            # (no net source in any sector: this is the infinite-volume limit of the periodic chain). V spans the
+            # null modes restricted to the symmetric vector-star basis. The vacancy bias has in addition the bare bias
+            # correction eta0 (periodic, known from the GF calculator) as inhomogeneous term.
+            NVS, NOS = self.vkinetic.Nvstars, len(self.OSindices)
+            probSsqrt = np.array([np.sqrt(probS[self.kineticsvWyckoff[starindex][0]]) for starindex in self.vstar2kin])
+            Vnull = (self.OSfolddown * (probVsqrt * probSsqrt)).T  # NVS x NOS
+            etaV0 = -np.tensordot(self.OS_VB, etav, axes=((1, 2), (0, 1))) * np.sqrt(self.N)
+            eta0 = np.dot(self.OSVfolddown.T, etaV0) * probSsqrt
+            dom = delta_om + om2
+            bordered = np.zeros((NVS + NOS, NVS + NOS))
+            bordered[:NVS, :NVS] = np.eye(NVS) + np.dot(G0, dom)
+            bordered[:NVS, NVS:] = -Vnull
+            bordered[NVS:, :NVS] = np.dot(Vnull.T, dom)
+            etaSvec = np.linalg.solve(bordered, np.concatenate((np.dot(G0, biasSvec_nocorr),
+                                                                np.dot(Vnull.T, biasSvec_nocorr))))[:NVS]
+            etaVvec = np.linalg.solve(bordered, np.concatenate((eta0 + np.dot(G0, biasVvec),
+                                                                np.dot(Vnull.T, biasVvec))))[:NVS]
+            outer = self.vkinetic.outer
+            symm = lambda M: 0.5 * (M + M.T)
+            D0ss, D0sv = D0ss_nocorr, D0sv_nocorr
+            L1ss = np.dot(np.dot(outer, etaSvec), biasSvec_nocorr) / self.N
+            L1sv = symm(np.dot(np.dot(outer, etaVvec), biasSvec_nocorr)) / self.N
+            # change of the vacancy term: 2 db.eta0 + db.(eta - eta0) - eta0.domega.eta, plus the correlation part of the
+            # bare vacancy term of the sites blocked by the solute (the bare part is already in D0vv)
+            L1vv = (2 * symm(np.dot(np.dot(outer, eta0), biasVvec)) +
+                    symm(np.dot(np.dot(outer, etaVvec - eta0), biasVvec)) -
+                    symm(np.dot(np.dot(outer, eta0), np.dot(dom, etaVvec)))) / self.N
+            bias0 = np.zeros((self.N, self.dim))
+            for jt, jumplist in enumerate(self.om0_jn):
+                for (i, j), dx in jumplist:
+                    bias0[i] += np.sqrt(probV[self.invmap[i]]) * omega0escape[self.invmap[i], jt] * dx
+            for i in range(self.N):
+                L1vv -= probS[self.invmap[i]] * np.sqrt(self.N) * symm(np.outer(bias0[i], etav[i])) / self.N
+
         # 6c. origin state corrections for vacancy:
-        if len(self.OSindices) > 0:
+        if len(self.OSindices) > 0 and use_large_om2:
             etaV0 = -np.tensordot(self.OS_VB, etav, axes=((1, 2), (0, 1))) * np.sqrt(self.N)
             outer_etaV0 = np.dot(self.vkinetic.outer[:, :, self.OSindices, :][:, :, :, self.OSindices], etaV0)
             dom = delta_om + om2  # sum of the terms
